@@ -254,8 +254,7 @@ def convert_inv(execution, inv_rec):
         if not (a and a[-1] in ("susp", "fail")):
             a.append("fail" if bi in braise else "ok")
         scripts.append(a)
-    if node.get("large_item") or node.get("large_items"):
-        raise Unsupported("large items")
+    # (oversized item results change the payload of the branch context's SUCCEED - a summary with ReplayChildren - not the events)
     ctx_ids = {path_id(f"{path}/b{bi}"): bi + 1 for bi in range(len(scripts))}
     step_parent = {}
     thread_branch = {}
@@ -274,6 +273,11 @@ def convert_inv(execution, inv_rec):
         for bi, body in enumerate(node["branches"]):
             cst = at.get(path_id(f"{path}/b{bi}"))
             if cst is None:
+                continue
+            if cst in ("SUCCEEDED", "FAILED"):
+                # the branch is replayed: its recorded outcome is returned / raised at once, the body does not run
+                pre.append(bi + 1)
+                scripts[bi] = ["rok" if cst == "SUCCEEDED" else "rfail"]
                 continue
             if cst != "STARTED":
                 raise Unsupported("branch context already completed")
